@@ -132,7 +132,10 @@ RenderFrom(doc, i) == IF i > Len(doc) THEN "" ELSE RenderLine(doc[i]) \o RenderF
 Render(doc) == RenderFrom(doc, 1)
 RenderingSane(doc) == \A i \in 1..Len(doc) :
      /\ {doc[i].lead, doc[i].pre, doc[i].post, doc[i].trail} \subseteq Blanks
-     /\ doc[i].eol \in {"\n", "\r\n"} \/ (doc[i].eol = "" /\ i = Len(doc))
+     /\ \/ doc[i].eol \in {"\n", "\r\n"}
+        \/ doc[i].eol = "" /\ i = Len(doc)
+        \/ doc[i].eol = "" /\ doc[i].t \in {"open", "close"}                              \* tags delimit themselves:
+        \/ doc[i].eol = "" /\ i < Len(doc) /\ doc[i + 1].t \in {"open", "close"}          \* <a>k=v</a> is one physical line
 (* the text of a content line as a line listing returns it: the written line without surrounding blanks *)
 LineText(l) == CASE Binding(l)    -> IF l.v = "" THEN l.k \o l.pre \o "=" ELSE l.k \o l.pre \o "=" \o l.post \o l.v
                  [] l.t = "key"   -> l.k
